@@ -913,266 +913,3 @@ Lemma old_code_refuted_thm :
   late (run (cfg_demo false) 0 alias_evs) = 0 /\ late (run (cfg_demo true) 0 alias_evs) = 0.
 Proof. vm_compute. repeat split; reflexivity. Qed.
 
-(* ====================================================================================
-   Plain mode (no action trigger enabled): each recognised change acts on the relay exactly once
-   ==================================================================================== *)
-Ltac gs := cbn [now lvl dstep dval d_on d_due d_seq last cc maxc act relg disg lsc silent t_on t_due t_seq t_adv
-                m_on m_due m_seq relay seqc halted late outs tr
-                set_now set_lvl set_dstep set_dval set_d_on set_d_due set_d_seq set_last set_cc set_maxc set_act
-                set_relg set_disg set_lsc set_silent set_t_on set_t_due set_t_seq set_t_adv set_m_on set_m_due
-                set_m_seq set_relay set_seqc set_halted set_late set_outs set_tr emit andb orb negb].
-(* closed comparisons of generated constants / numerals *)
-Ltac closedZ t := match t with Z0 => idtac | Zpos _ => idtac | Zneg _ => idtac | _ => is_const t end.
-Ltac kc := repeat match goal with
-  | |- context[?a =? ?b] => closedZ a; closedZ b;
-      let v := eval vm_compute in (a =? b) in
-      match v with true => change (a =? b) with true | false => change (a =? b) with false end
-  | |- context[hasb 0 ?b] => change (hasb 0 b) with false
-  end.
-
-Definition gp (l : list out) : list out := filter is_gpio l.
-Definition plain_expect (c : cfgT) (st_ r0 : Z) : option Z :=
-  if is_mono c then (if Bool.eqb (st_ =? ST_ACTIVE) (hasb (flags c) FLAG_TRIGGER_ON_PRESS) then Some (1 - r0) else None)
-  else if is_bi c then Some (1 - r0) else if is_motion c then Some st_ else None.
-
-Lemma relay_switch_eq hi s :
-  relay_switch hi s =
-    let h := if hi =? 255 then (if relay s =? 1 then 0 else 1) else hi in
-    let t1 := now s + RELAY_D1 in let t2 := t1 + RELAY_DOUBLE_TRY_US + RELAY_D2 in
-    set_outs (OValue t2 RELAY_CH h :: (if h =? relay s then [] else [OGpio t1 h]) ++ outs s) (set_relay h (set_now t2 s)).
-Proof.
-  unfold relay_switch. cbv zeta. gs. destruct (_ =? relay s); destruct s; reflexivity.
-Qed.
-
-Lemma gp_app a b : gp (a ++ b) = gp a ++ gp b. Proof. apply filter_app. Qed.
-
-(* the silent start-up test of supla_esp_input_notify_state_change *)
-Definition silent_ret (c : cfgT) (s : st) : bool := silent s && (u32 (now32 c s - init32 c) <? SILENT_US).
-
-Ltac fin f1 f2 f6 :=
-  rewrite ?f1, ?f2; kc; cbv iota; gs; cbn [Bool.eqb]; kc; cbv iota;
-  repeat split; try assumption; try reflexivity; try discriminate; intros;
-  try discriminate; try (split; [try reflexivity; try assumption|]);
-  unfold gp in *; cbn [filter is_gpio app]; rewrite ?f6; try reflexivity; try assumption.
-
-Theorem plain_notify_thm c st_ s :
-  act s = 0 -> cfg_btn c = false -> silent_ret c s = false -> halted s = false -> last s <> st_ ->
-  (st_ = ST_ACTIVE \/ st_ = ST_INACTIVE) -> (relay s = 0 \/ relay s = 1) ->
-  let r := notify c st_ s in
-  last r = st_ /\ act r = 0 /\ t_on r = false /\ halted r = false /\
-  (relc s = false -> relay r = relay s /\ gp (outs r) = gp (outs s)) /\
-  (relc s = true ->
-    match plain_expect c st_ (relay s) with
-    | Some h => relay r = h /\ gp (outs r) = (if h =? relay s then [] else [OGpio (now s + RELAY_D1) h]) ++ gp (outs s)
-    | None => relay r = relay s /\ gp (outs r) = gp (outs s)
-    end).
-Proof.
-  intros Ha Hc Hs Hh Hl Hst Hrel. cbv zeta.
-  unfold notify. cbv zeta. gs. unfold now32. gs. unfold silent_ret, now32 in Hs. rewrite Hs.
-  destruct (last s =? st_) eqn:E; [apply Z.eqb_eq in E; congruence|].
-  rewrite Ha. kc. gs.
-  set (s' := set_t_adv false _).
-  assert (F : now s' = now s /\ relay s' = relay s /\ act s' = 0 /\ relg s' = relg s /\ halted s' = false /\
-              gp (outs s') = gp (outs s) /\ last s' = st_ /\ t_on s' = false).
-  { subst s'. gs. repeat split; assumption. }
-  clearbody s'. destruct F as (f1&f2&f3&f4&f5&f6&f7&f8).
-  unfold legacy_handler. cbv zeta. rewrite Hc. gs. rewrite f5.
-  unfold on_hold_en. rewrite Hc. gs.
-  unfold plain_expect, relc in *. rewrite <- f4.
-  destruct Hst as [-> | ->]; kc; cbv iota.
-  - (* active *)
-    unfold on_active. cbv zeta. gs. unfold relc. gs. rewrite f3. kc. gs.
-    destruct (negb (relg s' =? NOREL)) eqn:ER.
-    + rewrite !andb_true_r.
-      destruct (is_mono c) eqn:T1.
-      { assert (is_bi c = false /\ is_motion c = false) as [T2 T3].
-        { unfold is_mono, is_bi, is_motion in *. apply Z.eqb_eq in T1. rewrite T1. split; reflexivity. }
-        rewrite T2, T3. gs. destruct (hasb (flags c) FLAG_TRIGGER_ON_PRESS); gs.
-        - rewrite relay_switch_eq. cbv zeta. gs.
-          destruct Hrel as [R|R]; rewrite f2, R; fin f1 f2 f6.
-        - destruct (is_sensor c && _); gs; fin f1 f2 f6. }
-      destruct (is_bi c) eqn:T2.
-      { assert (is_motion c = false) as T3.
-        { unfold is_bi, is_motion in *. apply Z.eqb_eq in T2. rewrite T2. reflexivity. }
-        rewrite T3. gs.
-        rewrite relay_switch_eq. cbv zeta. gs.
-        destruct Hrel as [R|R]; rewrite f2, R; fin f1 f2 f6. }
-      destruct (is_motion c) eqn:T3; gs.
-      { rewrite relay_switch_eq. cbv zeta. gs.
-        destruct Hrel as [R|R]; rewrite f2, R; fin f1 f2 f6. }
-      destruct (is_sensor c && _); gs; fin f1 f2 f6.
-    + rewrite !andb_false_r.
-      destruct (is_sensor c && _); gs; fin f1 f2 f6.
-  - (* inactive *)
-    unfold on_inactive. cbv zeta. gs. unfold relc. gs.
-    destruct (negb (relg s' =? NOREL)) eqn:ER.
-    + rewrite !andb_true_r.
-      destruct (is_mono c) eqn:T1.
-      { assert (is_bi c = false /\ is_motion c = false) as [T2 T3].
-        { unfold is_mono, is_bi, is_motion in *. apply Z.eqb_eq in T1. rewrite T1. split; reflexivity. }
-        rewrite T2, T3. gs. destruct (hasb (flags c) FLAG_TRIGGER_ON_PRESS); gs.
-        - destruct (is_sensor c && _); gs; fin f1 f2 f6.
-        - rewrite relay_switch_eq. cbv zeta. gs.
-          destruct Hrel as [R|R]; rewrite f2, R; fin f1 f2 f6. }
-      destruct (is_bi c) eqn:T2.
-      { assert (is_motion c = false) as T3.
-        { unfold is_bi, is_motion in *. apply Z.eqb_eq in T2. rewrite T2. reflexivity. }
-        rewrite T3. gs.
-        rewrite relay_switch_eq. cbv zeta. gs.
-        destruct Hrel as [R|R]; rewrite f2, R; fin f1 f2 f6. }
-      destruct (is_motion c) eqn:T3; gs.
-      { rewrite f3. kc. gs. rewrite relay_switch_eq. cbv zeta. gs.
-        destruct Hrel as [R|R]; rewrite f2, R; fin f1 f2 f6. }
-      destruct (is_sensor c && _); gs; fin f1 f2 f6.
-    + rewrite !andb_false_r.
-      destruct (is_sensor c && _); gs; fin f1 f2 f6.
-Qed.
-
-(* ---------- plain mode, step by step ---------- *)
-Record PlainInv (s : st) : Prop := { pi_act : act s = 0; pi_ton : t_on s = false; pi_rel : relay s = 0 \/ relay s = 1 }.
-(* the micro-step MDeb at s is an effective notify: the sampler delivers its sixth equal sample, the silent
-   start-up period is over and the state differs from last_state *)
-Definition eff (c : cfgT) (s : st) : bool :=
-  negb (halted s) && d_on s && (d_due s <=? now s) && caseB (rearm_d s) && negb (silent_ret c s) &&
-  negb (last s =? stl c (lvl s)).
-
-Lemma mstep_fields2 c m s :
-  relay (mstep c m s) = relay (mact c m s) /\ act (mstep c m s) = act (mact c m s) /\
-  t_on (mstep c m s) = t_on (mact c m s) /\ outs (mstep c m s) = outs (mact c m s).
-Proof. unfold mstep; cbv zeta; gs. auto. Qed.
-
-Lemma notify_noneff c st_ s :
-  silent_ret c s = true \/ last s = st_ ->
-  let r := notify c st_ s in
-  relay r = relay s /\ act r = act s /\ t_on r = t_on s /\ gp (outs r) = gp (outs s) /\ halted r = halted s.
-Proof.
-  intros H. cbv zeta. unfold notify. cbv zeta. gs. unfold now32. gs.
-  unfold silent_ret, now32 in H.
-  destruct (silent s && _) eqn:E.
-  - gs. repeat split.
-  - destruct H as [H|H]; [discriminate|]. rewrite H, Z.eqb_refl. gs. repeat split.
-Qed.
-
-Lemma on_act_inv c lg x : (relay x = 0 \/ relay x = 1) ->
-  let r := on_active c lg x in act r = act x /\ t_on r = t_on x /\ (relay r = 0 \/ relay r = 1).
-Proof.
-  intros R. cbv zeta. unfold on_active. cbv zeta.
-  assert (E : forall y, act y = act x -> t_on y = t_on x -> relay y = relay x ->
-     forall hi, (hi = 1 \/ hi = 255) -> act (relay_switch hi y) = act x /\ t_on (relay_switch hi y) = t_on x /\ (relay (relay_switch hi y) = 0 \/ relay (relay_switch hi y) = 1)).
-  { intros y e1 e2 e3 hi Hhi. rewrite relay_switch_eq. cbv zeta. gs. rewrite e1, e2, e3. split; [reflexivity|]. split; [reflexivity|].
-    destruct Hhi as [-> | ->]; kc; cbv iota; [auto|]. destruct (relay x =? 1); auto. }
-  destruct lg; gs;
-  repeat match goal with |- context[if ?b then _ else _] => destruct b end; gs; auto; apply E; gs; auto.
-Qed.
-Lemma on_inact_inv c lg x : (relay x = 0 \/ relay x = 1) ->
-  let r := on_inactive c lg x in act r = act x /\ t_on r = t_on x /\ (relay r = 0 \/ relay r = 1).
-Proof.
-  intros R. cbv zeta. unfold on_inactive. cbv zeta.
-  assert (E : forall y, act y = act x -> t_on y = t_on x -> relay y = relay x ->
-     forall hi, (hi = 0 \/ hi = 255) -> act (relay_switch hi y) = act x /\ t_on (relay_switch hi y) = t_on x /\ (relay (relay_switch hi y) = 0 \/ relay (relay_switch hi y) = 1)).
-  { intros y e1 e2 e3 hi Hhi. rewrite relay_switch_eq. cbv zeta. gs. rewrite e1, e2, e3. split; [reflexivity|]. split; [reflexivity|].
-    destruct Hhi as [-> | ->]; kc; cbv iota; [auto|]. destruct (relay x =? 1); auto. }
-  destruct lg; gs;
-  repeat match goal with |- context[if ?b then _ else _] => destruct b end; gs; auto; apply E; gs; auto.
-Qed.
-
-Lemma rearm_fields s : let x := rearm_d s in
-  act x = act s /\ silent x = silent s /\ halted x = halted s /\ last x = last s /\ relay x = relay s /\ outs x = outs s /\
-  now x = now s /\ relg x = relg s /\ t_on x = t_on s /\ lvl x = lvl s.
-Proof. unfold rearm_d; gs; repeat split. Qed.
-
-Theorem plain_step_thm c m s :
-  cfg_btn c = false -> PlainInv s ->
-  (forall mask, m = MTrig mask -> Z.land (cap c) mask = 0) ->
-  let r := mstep c m s in
-  PlainInv r /\
-  (m = MDeb -> eff c s = true ->
-     last r = stl c (lvl s) /\
-     (relc s = false -> relay r = relay s /\ gp (outs r) = gp (outs s)) /\
-     (relc s = true ->
-        match plain_expect c (stl c (lvl s)) (relay s) with
-        | Some h => relay r = h /\ gp (outs r) = (if h =? relay s then [] else [OGpio (now s + RELAY_D1) h]) ++ gp (outs s)
-        | None => relay r = relay s /\ gp (outs r) = gp (outs s)
-        end)) /\
-  (~ (m = MDeb /\ eff c s = true) -> m <> MMot -> relay r = relay s /\ gp (outs r) = gp (outs s)).
-Proof.
-  intros Hc [Pa Pt Pr] Hm. cbv zeta.
-  destruct (mstep_fields2 c m s) as (g1 & g2 & g3 & g4).
-  destruct (mstep_proj c m s) as (e1&e2&e3&e4&e5&e6&e7&e8&e9). cbv zeta in *.
-  rewrite g1, g4, e6. 
-  assert (PI : forall x, act x = 0 -> t_on x = false -> (relay x = 0 \/ relay x = 1) ->
-                 act (mact c m s) = act x -> t_on (mact c m s) = t_on x -> relay (mact c m s) = relay x -> PlainInv (mstep c m s)).
-  { intros x a1 a2 a3 b1 b2 b3. constructor; rewrite ?g1, ?g2, ?g3; congruence. }
-  destruct (halted s) eqn:Hs.
-  { rewrite mact_halted in * by assumption. split; [apply (PI s); auto|]. split; [|auto].
-    intros _ E. unfold eff in E. rewrite Hs in E. discriminate. }
-  destruct m.
-  - (* MTime *) unfold mact in *. rewrite Hs in *. destruct (now s <=? t); gs; (split; [eapply (PI s); gs; auto|]); (split; [discriminate|auto]).
-  - (* MIn *) unfold mact in *. rewrite Hs in *. destruct (l =? lvl s); [split; [eapply (PI s); auto|split; [discriminate|auto]]|].
-    unfold isr, arm_d in *. 
-    destruct (dstep (set_lvl l s) =? 0); [|destruct (rst c)]; gs; (split; [eapply (PI s); gs; auto|]); (split; [discriminate|auto]).
-  - (* MDeb *)
-    rewrite mact_deb in * by assumption.
-    destruct (rearm_fields s) as (r1&r2&r3&r4&r5&r6&r7&r8&r9&r10). cbv zeta in *.
-    destruct (d_on s && (d_due s <=? now s)) eqn:Ep.
-    2:{ split; [eapply (PI s); auto|]. split; [|auto]. intros _ E. unfold eff in E. rewrite Hs in E. cbn [negb andb] in E.
-        rewrite Ep in E. discriminate. }
-    destruct (caseA (rearm_d s)) eqn:EA.
-    { rewrite deb_cb_A in * by assumption. gs. split; [eapply (PI s); gs; auto|]. split; [|rewrite r5, r6; auto].
-      intros _ E. unfold eff, caseB in E. rewrite EA in E. rewrite !andb_false_r in E. discriminate. }
-    destruct (caseB (rearm_d s)) eqn:EB.
-    2:{ rewrite deb_cb_C in * by assumption. gs. split; [eapply (PI s); gs; auto|]. split; [|rewrite r5, r6; auto].
-        intros _ E. unfold eff in E. rewrite EB in E. rewrite !andb_false_r in E. discriminate. }
-    rewrite deb_cb_B in * by assumption. cbv zeta in *. rewrite r10 in *.
-    set (x := rearm_d s) in *.
-    assert (SR : silent_ret c x = silent_ret c s) by (unfold silent_ret, now32; rewrite r2, r7; reflexivity).
-    assert (RC : relc x = relc s) by (unfold relc; rewrite r8; reflexivity).
-    destruct (eff c s) eqn:EF.
-    + unfold eff in EF. rewrite Hs, Ep, EB in EF. cbn [negb andb] in EF. apply andb_prop in EF as [EF1 EF2].
-      apply negb_true_iff in EF1, EF2. apply Z.eqb_neq in EF2.
-      assert (Hst : stl c (lvl s) = ST_ACTIVE \/ stl c (lvl s) = ST_INACTIVE) by (unfold stl; destruct (_ =? _); auto).
-      destruct (plain_notify_thm c (stl c (lvl s)) x ltac:(congruence) Hc ltac:(congruence) ltac:(congruence) ltac:(congruence) Hst ltac:(rewrite r5; exact Pr))
-        as (n1 & n2 & n3 & n4 & n5 & n6). cbv zeta in *.
-      set (y := notify c (stl c (lvl s)) x) in *. rewrite n4 in *. gs.
-      split; [eapply (PI y); gs; auto|].
-      { destruct (negb (relg x =? NOREL)) eqn:RG.
-        - specialize (n6 RG). unfold plain_expect in n6. rewrite r5 in n6.
-          destruct (is_mono c); [destruct (Bool.eqb _ _)|destruct (is_bi c); [|destruct (is_motion c)]];
-            destruct n6 as [n6 _]; rewrite n6;
-            try exact Pr; try (destruct Pr as [P|P]; rewrite P; auto; fail);
-            (destruct Hst as [H|H]; rewrite H; auto).
-        - destruct (n5 RG) as [n5' _]. rewrite n5', r5. exact Pr. }
-      split.
-      * intros _ _. split; [exact n1|]. rewrite <- RC, <- r5, <- r6, <- r7. split; assumption.
-      * intros H. exfalso. apply H. auto.
-    + split.
-      * assert (NE : silent_ret c x = true \/ last x = stl c (lvl s)).
-        { unfold eff in EF. rewrite Hs, Ep, EB in EF. cbn [negb andb] in EF. apply andb_false_iff in EF as [EF|EF].
-          - apply negb_false_iff in EF. left; congruence.
-          - apply negb_false_iff in EF. apply Z.eqb_eq in EF. right; congruence. }
-        destruct (notify_noneff c _ x NE) as (m1 & m2 & m3 & m4 & m5). cbv zeta in *.
-        set (y := notify c (stl c (lvl s)) x) in *. rewrite m5, r3, Hs in *. gs.
-        eapply (PI s); gs; auto; congruence.
-      * split; [intros _ E; discriminate|]. intros _ _.
-        assert (NE : silent_ret c x = true \/ last x = stl c (lvl s)).
-        { unfold eff in EF. rewrite Hs, Ep, EB in EF. cbn [negb andb] in EF. apply andb_false_iff in EF as [EF|EF].
-          - apply negb_false_iff in EF. left; congruence.
-          - apply negb_false_iff in EF. apply Z.eqb_eq in EF. right; congruence. }
-        destruct (notify_noneff c _ x NE) as (m1 & m2 & m3 & m4 & m5). cbv zeta in *.
-        set (y := notify c (stl c (lvl s)) x) in *. rewrite m5, r3, Hs. gs. split; congruence.
-  - (* MTim *) unfold mact in *. rewrite Hs, Pt in *. gs. split; [eapply (PI s); auto|split; [discriminate|auto]].
-  - (* MMot *) unfold mact in *. rewrite Hs in *. split; [|split; [discriminate|intros _ H; congruence]].
-    destruct (m_on s && _); [|eapply (PI s); auto].
-    unfold mot_cb. 
-    assert (X : act (set_m_on false s) = 0 /\ t_on (set_m_on false s) = false /\ (relay (set_m_on false s) = 0 \/ relay (set_m_on false s) = 1)) by (gs; auto).
-    destruct X as (x1 & x2 & x3).
-    repeat match goal with |- context[if ?b then _ else _] => destruct b end;
-      try (eapply (PI s); gs; auto; fail).
-    + destruct (on_act_inv c false _ x3) as (a1 & a2 & a3). cbv zeta in *. constructor; rewrite ?g1, ?g2, ?g3; congruence.
-    + destruct (on_inact_inv c false _ x3) as (a1 & a2 & a3). cbv zeta in *. constructor; rewrite ?g1, ?g2, ?g3; congruence.
-  - (* MTrig *) unfold mact in *. rewrite Hs in *. specialize (Hm mask eq_refl).
-    unfold set_triggers in *. cbv zeta in *. rewrite Hm in *. rewrite Pa in *. kc. 
-    change (max_from_actions 0) with 0 in *. change (disconnects c 0) with false in *. gs.
-    destruct (disg s =? NOREL); gs; (split; [eapply (PI s); gs; auto|]); (split; [discriminate|auto]).
-  - (* MFault *) unfold mact in *. rewrite Hs in *. gs. split; [eapply (PI s); gs; auto|]. split; [discriminate|auto].
-Qed.
